@@ -229,10 +229,25 @@ def run_history(r, hist, build, tag, extra_eval=None, env_apply=None, as_numpy=F
                 fexc = None
             except Exception as e2:
                 fexc = e2
-            r.check(fexc is not None and type(fexc) is type(e), 'history-no-exception',
-                    'history-exception/%s/%s' % (type(e).__name__, sig), exc=repr(e), fresh_exc=repr(fexc),
-                    hist=hist[:k + 1])
-            return
+            agreed = r.check(fexc is not None and type(fexc) is type(e), 'history-no-exception',
+                             'history-exception/%s/%s' % (type(e).__name__, sig), exc=repr(e), fresh_exc=repr(fexc),
+                             hist=hist[:k + 1])
+            if not agreed:
+                return
+            # a rejected model is not the end of the object's life: the per-source entry points are asked too (they must
+            # refuse as well), and the history goes on - what the next, valid, settings give must not depend on the
+            # rejection in between
+            for entry_ in ('contrib', 'full'):
+                try:
+                    evaluate_entry(live, entry_, None if win[0] is None else np.array(win[0], dtype=float))
+                    r.check(False, 'history-no-exception', 'history-invalid-accepted-by-%s/%s' % (entry_, tag),
+                            hist=hist[:k + 1])
+                except Exception as e3:
+                    r.check(type(e3) is type(e), 'history-no-exception',
+                            'history-exception-differs/%s/%s/%s' % (entry_, type(e3).__name__, tag), exc=repr(e3),
+                            model_exc=repr(e), hist=hist[:k + 1])
+            r.count('rejected-states-continued')
+            continue
         if build_with is not None:
             # the fresh model receives the net settings as constructor arguments where the check can express them so
             # (a defect that sits in the setters, or in what build() does to constructor values, is then not mirrored)
